@@ -3,6 +3,9 @@ EXTENDS Treap
 MC_Vals == {"", "a", "bb"}
 MC_Vals2 == {"", "a"}
 MC_KeyLen == [k \in 1..3 |-> k]
+MC_KeyLen6 == [k \in 1..6 |-> 1 + (k % 3)]
+NoKeys == {}
+AllKeys6 == 1..6
 MC_ValLen2 == [v \in MC_Vals2 |-> IF v = "" THEN 0 ELSE 1]
 MC_ValLen == [v \in MC_Vals |-> IF v = "" THEN 0 ELSE IF v = "a" THEN 1 ELSE 2]
 =============================================================================
